@@ -12,11 +12,11 @@ pub fn enum_try_as_inner(ast: &DeriveInput) -> syn::Result<TokenStream> {
     let enum_name = &ast.ident;
     let (impl_generics, ty_generics, where_clause) = ast.generics.split_for_impl();
 
-    let variants: Vec<_> = variants
+    let variants = variants
         .iter()
-        .filter_map(|variant| {
-            if variant.get_variant_properties().ok()?.disabled.is_some() {
-                return None;
+        .map(|variant| {
+            if variant.get_variant_properties()?.disabled.is_some() {
+                return Ok(None);
             }
 
             match &variant.fields {
@@ -35,7 +35,7 @@ pub fn enum_try_as_inner(ast: &DeriveInput) -> syn::Result<TokenStream> {
                     let ref_fn_name = format_ident!("try_as_{}_ref", snakify(&variant_name.to_string()));
                     let mut_fn_name = format_ident!("try_as_{}_mut", snakify(&variant_name.to_string()));
 
-                    Some(quote! {
+                    Ok(Some(quote! {
                         #[must_use]
                         #[inline]
                         pub fn #move_fn_name(self) -> ::core::option::Option<(#(#types),*)> {
@@ -62,15 +62,16 @@ pub fn enum_try_as_inner(ast: &DeriveInput) -> syn::Result<TokenStream> {
                                 _ => None
                             }
                         }
-                    })
+                    }))
                 },
                 _ => {
-                    return None;
+                    return Ok(None);
                 }
             }
 
         })
-        .collect();
+        .collect::<syn::Result<Vec<Option<TokenStream>>>>()?;
+    let variants = variants.into_iter().flatten();
 
     Ok(quote! {
         impl #impl_generics #enum_name #ty_generics #where_clause {
